@@ -1,7 +1,7 @@
 (* Correspondence evaluators for C03.  Result code per case (Base.Corr.code): 0 = the implementation agrees with the model
    and satisfies the declarative oracle; 1 = differs from the model only; >= 2 = violates the oracle. *)
 From Coq Require Import List NArith Bool.
-From LE Require Import Base.Corr BFT.ForkChoice Exec.VerifyBlock Exec.Process.
+From LE Require Import Base.Corr BFT.Contradiction BFT.ForkChoice Exec.VerifyBlock Exec.Process.
 Import ListNotations.
 Local Open Scope N_scope.
 
@@ -32,8 +32,21 @@ Record impl_obs := mkIO {
   io_app_after : bstr;      (* state root the application (ABI double) holds committed after the case *)
   io_abi_commits : N; io_abi_reverts : N }.   (* ABI Commit / Revert calls during the case *)
 
+(* INDEPENDENT contradiction verdict: BFTVotes.contradicting re-evaluated in Gallina (BFT/Contradiction.v, the C07 model) on the
+   window of the node (newest first; generator as the code of its address): the newest entry of the same generator decides. *)
+Definition window_contradicting (w : list bh) (h : header) : bool :=
+  let hb := Build_bh (h_height h) (b_code (h_gen h)) (h_mhg h) (h_mhp h) in
+  match find (fun e => gen e =? gen hb) w with
+  | Some e => contradicting e hb
+  | None => false
+  end.
+Definition set_contra (v : venv) (c : bool) : venv :=
+  mkVE (ve_genesis_ts v) (ve_block_time v) (ve_now v) (ve_max_payload v) (ve_gen_lookup_ok v) (ve_generators v) (ve_node_mhp v) c
+       (ve_mh_precommit v) (ve_mh_cert v) (ve_next_params v) (ve_agg_lookup_ok v) (ve_agg_bls_ok v) (ve_sig_ok v).
+
 Record pv_case := mkPV {
-  c_tip : header; c_fin : N; c_cs : N; c_app : bstr; c_block : block; c_pe : payload_env; c_ve : venv; c_xe : xenv; c_io : impl_obs }.
+  c_tip : header; c_fin : N; c_cs : N; c_app : bstr; c_block : block; c_pe : payload_env; c_ve : venv; c_xe : xenv; c_io : impl_obs;
+  c_window : list bh }.
 
 Definition tip_id (s : node) : bstr :=
   match tip_header s with Some h => h_id h | None => mkB 0 0 end.
@@ -49,11 +62,13 @@ Definition check_pv (c : pv_case) : N :=
   let s := mkNode [tipb] (c_cs c) (c_fin c) [] (c_app c) in
   let b := c_block c in
   let io := c_io c in
-  let '(o, s') := receive s b (c_pe c) (c_ve c) (c_xe c) in
+  let ve := set_contra (c_ve c) (window_contradicting (c_window c) (b_header b)) in
+  let short_answers := Nat.ltb (length (xe_tx (c_xe c))) (length (b_txs b)) in   (* tx_loop is total on a short answer list: not a case *)
+  let '(o, s') := receive s b (c_pe c) ve (c_xe c) in
   let mnum := match o with Accepted => 0 | Rejected r => rule_num r | NoTip => 99 end in
   let agree_model := existsb (N.eqb mnum) (io_rules io) && state_agrees s' io
-                     && (if mnum =? 0 then true else io_db_same io) in
-  let valid := valid_block_b (c_tip c) b (c_pe c) (c_ve c) (c_xe c) in
+                     && (if mnum =? 0 then true else io_db_same io) && negb short_answers in
+  let valid := valid_block_b (c_tip c) b (c_pe c) ve (c_xe c) in
   let x := c_xe c in
   let raise := c_fin c <? xe_post_precommit x in
   let spec_events :=
@@ -76,18 +91,48 @@ Record tb_case := mkTB {
   t_prev : block; t_old : block; t_fin : N; t_cs : N; t_app : bstr; t_new : block; t_pe : payload_env; t_ve : venv; t_xe : xenv;
   t_del_cs : N; t_old_ve : venv; t_old_xe : xenv; t_io : impl_obs }.
 
+(* Result of the tie-break evaluator: a bit mask, so that every conjunct is reported under its own key.
+     1   the implementation differs from the model (state, events, application root, DB-unchanged flag)
+     2   KNOWN pattern only: the competitor is invalid and the events are exactly [Delete old tip; New old tip]
+     4   tip wrong (invalid competitor: must be the old tip; valid: must be the competitor)
+     8   invalid competitor but the database is not byte-identical
+     16  finalized height wrong      32  consensus store wrong
+     64  application root / ABI commit-revert balance wrong
+     128 events are neither the expected ones nor the known pattern *)
 Definition check_tb (c : tb_case) : N :=
   let s := mkNode [t_prev c; t_old c] (t_cs c) (t_fin c) [] (t_app c) in
   let io := t_io c in
   let '(o, s') := process s (t_new c) TieBreak (t_pe c) (t_ve c) (t_xe c)
                           (mkTE (mkDE true true (t_del_cs c)) (t_old_ve c) (t_old_xe c)) in
-  let agree_model := state_agrees s' io in
-  (* oracle: the competing block is appended (replacing the old tip) only if it is valid against the parent;
-     otherwise chain, consensus state, finalized height, events and the database are exactly as before *)
+  let model_accepts := match o with PAccepted => true | _ => false end in
+  let agree_model := state_agrees s' io && (if model_accepts then true else io_db_same io) in
   let valid := valid_block_b (b_header (t_prev c)) (t_new c) (t_pe c) (t_ve c) (t_xe c) in
-  let now_tip_new := beq (io_tip_after io) (h_id (b_header (t_new c))) in
-  let agree_spec :=
-      if valid then true
-      else negb now_tip_new && io_db_same io && evs_eqb (io_events io) [] && beq (io_tip_after io) (h_id (b_header (t_old c)))
-           && (io_fin_after io =? t_fin c) && (io_cs_after io =? t_cs c) in
-  code agree_model agree_spec.
+  let oldh := b_header (t_old c) in
+  let newh := b_header (t_new c) in
+  let x := t_xe c in
+  let del_old := (3, b_code (h_id oldh), 0, 0) in
+  let known_events := [del_old; (1, b_code (h_id oldh), xe_nevents (t_old_xe c), 0)] in
+  let raise := t_fin c <? xe_post_precommit x in
+  let valid_events := [del_old]
+      ++ (if raise then [(2, t_fin c, xe_post_precommit x, b_code (h_id newh))] else [])
+      ++ [(1, b_code (h_id newh), xe_nevents x, 0)] ++ (if xe_params_changed x then [(4, 0, 0, 0)] else []) in
+  let balanced := io_abi_commits io =? io_abi_reverts io in
+  let bit (b : bool) (n : N) : N := if b then 0 else n in
+  if valid then
+    bit agree_model 1
+    + bit (beq (io_tip_after io) (h_id newh)) 4
+    + bit (io_fin_after io =? N.max (t_fin c) (xe_post_precommit x)) 16
+    + bit (io_cs_after io =? xe_post_cs x) 32
+    + bit (beq (io_app_after io) (h_stateroot newh) && balanced) 64
+    + bit (evs_eqb (io_events io) valid_events) 128
+  else
+    let ev_none := evs_eqb (io_events io) [] in
+    let ev_known := evs_eqb (io_events io) known_events in
+    bit agree_model 1
+    + (if ev_known then 2 else 0)
+    + bit (beq (io_tip_after io) (h_id oldh)) 4
+    + bit (io_db_same io) 8
+    + bit (io_fin_after io =? t_fin c) 16
+    + bit (io_cs_after io =? t_cs c) 32
+    + bit (beq (io_app_after io) (t_app c) && balanced) 64
+    + bit (ev_none || ev_known) 128.
